@@ -53,6 +53,113 @@ def mrq_program(K, start):
     return prog
 
 
+def rollout_program(ctx):
+    """generate_rollout: one episode, never stepping past its end."""
+    from rl_blox.util import experiment_helper as eh
+    from props import loopworld as W
+    from props.e2common import overlay
+    import numpy as np
+    w = W.World()
+    env = W.RecEnv(w, discrete=True, max_steps=8, symbolic_rewards=False)
+    env.force_end_at = 4
+
+    class J:
+        class random:
+            key = staticmethod(lambda s: ("key", s))
+            split = staticmethod(lambda k, num=2: [("s", k, 0), ("s", k, 1)])
+
+    class Jnp:
+        array = staticmethod(lambda x: list(x))
+    calls = []
+
+    def policy(observation, key):
+        calls.append(observation)
+        return len(calls)
+    with overlay(eh, jax=J, jnp=Jnp):
+        obs, acts, rews = eh.generate_rollout(env, policy, seed=0)
+    last = env.steps[-1]
+    ctx.check(W.b_or(last["terminated"], last["truncated"]), "rollout-ends-with-the-episode")
+    ctx.check(len(obs) == env.n_steps + 1 and len(acts) == env.n_steps and len(rews) == env.n_steps, "rollout-records-every-step")
+
+
+def uts_program(total, eps):
+    def prog(ctx):
+        w, ts, res = L.run_uts(ctx, total, eps)
+        executed = sum(e.n_steps for e in ts.envs_)
+        ctx.check(executed <= total, "scheduler-never-exceeds-the-total-budget")
+        ctx.check(res.global_step == executed, "scheduler-step-count=steps-actually-executed")
+        ctx.check(executed == total, "scheduler-uses-the-whole-budget")
+    return prog
+
+
+def smt_program(b1, b2, interval):
+    def prog(ctx):
+        w, ts, buf, res = L.run_smt(ctx, b1, b2, interval)
+        result_st, training_steps, perf = res
+        executed = [e.n_steps for e in ts.envs_]
+        ctx.check(sum(executed) <= b1 + b2, "scheduler-never-exceeds-the-total-budget")
+        for t in range(len(executed)):
+            ctx.check(int(training_steps[t]) == executed[t], "per-task-step-totals=steps-actually-executed-on-that-task")
+        ctx.check(int(sum(training_steps)) == sum(executed), "per-task-totals-sum-to-the-executed-steps")
+        for t in buf.selected:
+            ctx.check(0 <= t < len(executed), "scheduler-selects-valid-task-ids")
+    return prog
+
+
+def selector_programs():
+    from e2_pysym.core import sym_real
+    import numpy as np
+    from rl_blox.blox import multitask as mt
+    from rl_blox.blox import mapb
+
+    def round_robin(ctx):
+        tasks = np.arange(3)
+        sel = mt.RoundRobinSelector(tasks)
+        for i in range(5):
+            t = sel.select()
+            ctx.check(t in (0, 1, 2), "selector-returns-valid-task-ids")
+            try:
+                sel.select()
+                ctx.check(False, "selection-and-feedback-strictly-alternate")
+            except AssertionError:
+                pass
+            sel.feedback(sym_real(f"r{i}"))
+            try:
+                sel.feedback(0.0)
+                ctx.check(False, "selection-and-feedback-strictly-alternate")
+            except AssertionError:
+                pass
+
+    def ducb(ctx):
+        n = 2
+        b = mapb.DUCB(n_arms=n, upper_bound=1.0, gamma=0.9, zeta=0.002)
+        for i in range(2 * n + 1):
+            before = len(b.rewards)
+            vals = [b._discounted_empirical_mean(j) + b._padding_function(j) for j in range(n)] if before >= 2 * n else None
+            arm = b.choose_arm()
+            ctx.check(0 <= int(arm) < n, "selector-returns-valid-task-ids")
+            if before < 2 * n:
+                ctx.check(int(arm) == before % n, "ducb-plays-every-arm-in-its-initial-rounds")
+            else:
+                for j in range(n):
+                    ctx.check(vals[int(arm)] >= vals[j], "ducb-afterwards-plays-an-arm-maximising-discounted-mean+bonus")
+            b.reward(sym_real(f"rew{i}", 0, 1))
+
+    def ducb_general(ctx):
+        tasks = np.arange(2)
+        sel = mt.DUCBGeneralized(tasks, upper_bound=1.0, ducb_gamma=0.9, zeta=0.002, baseline=None, op=None)
+        for i in range(3):
+            t = sel.select()
+            ctx.check(int(t) in (0, 1), "selector-returns-valid-task-ids")
+            try:
+                sel.select()
+                ctx.check(False, "selection-and-feedback-strictly-alternate")
+            except AssertionError:
+                pass
+            sel.feedback(sym_real(f"r{i}", 0, 1))
+    return [("RoundRobinSelector", round_robin), ("mapb.DUCB", ducb), ("DUCBGeneralized", ducb_general)]
+
+
 def main(tier, seed):
     rep = E2Report(PROP, tier, seed)
     Ks = [0, 1, 3] if tier == "quick" else [0, 1, 2, 3, 4, 5]
@@ -76,6 +183,15 @@ def main(tier, seed):
         for start in starts:
             rep.run(f"train_td7[K={K},global_step={start}]", td7_program(K, start), fn="rl_blox.algorithm.td7.train_td7/_train_step", site_of=lambda label: f"train_td7:{label}")
             rep.run(f"train_mrq[K={K},global_step={start}]", mrq_program(K, start), fn="rl_blox.algorithm.mrq.train_mrq", site_of=lambda label: f"train_mrq:{label}")
+    rep.run("generate_rollout", rollout_program, fn="rl_blox.util.experiment_helper.generate_rollout", site_of=lambda label: f"generate_rollout:{label}")
+    for total, eps in ([(3, 1), (4, 2)] if tier == "quick" else [(3, 1), (4, 2), (5, 2), (6, 3)]):
+        rep.run(f"train_uts[total={total},episodes_per_task={eps}]", uts_program(total, eps), fn="rl_blox.algorithm.uniform_task_sampling.train_uts (train_st = contract stub)",
+                site_of=lambda label: f"train_uts:{label}")
+    for b1, b2, iv in ([(3, 2, 1), (4, 2, 2)] if tier == "quick" else [(3, 2, 1), (4, 2, 2), (5, 3, 2), (4, 3, 3)]):
+        rep.run(f"train_smt[b1={b1},b2={b2},interval={iv}]", smt_program(b1, b2, iv), fn="rl_blox.algorithm.smt.train_smt/smt_stage1/smt_stage2 (train_st = contract stub)",
+                site_of=lambda label: f"train_smt:{label}")
+    for name, prog in selector_programs():
+        rep.run(name, prog, fn=f"rl_blox.blox.multitask/mapb {name}", site_of=lambda label, name=name: f"{name}:{label}")
     return rep.finish()
 
 
